@@ -536,6 +536,8 @@ def run(ctx):
     # lower-casing (alpha values are stored lower-cased) cannot create a TAB or a line break: sweep of the interpreter
     lbt = set(C["linebreak"]) | {9}
     bad_lower = [c for c in range(0x110000) if c not in lbt and any(ord(d) in lbt for d in chr(c).lower())]
+    import reader_tie
+    corr += reader_tie.obligations()
     corr.append(("probe:lower-keeps-values-safe", not bad_lower,
                  "str.lower() of %s yields a TAB / line break" % cps(bad_lower[:5]) if bad_lower else "all 0x110000 code points"))
     # the side conditions of Props/C07.v, spelled out for the evidence
